@@ -308,7 +308,7 @@ pub fn gen_tree(
             }
             1 => {
                 let mut d = root.to_string();
-                for i in 0..rng.range(8, 24) {
+                for i in 0..(if rng.chance(1, 4) { rng.range(60, 90) } else { rng.range(8, 24) }) {
                     d = join(&d, &format!("n{}", i));
                     if rng.chance(1, 3) {
                         let p = join(&d, &format!("deep{}.sol", i));
@@ -554,9 +554,15 @@ pub fn place_cwd(rng: &mut Rng, world: &mut World, analysed: &str, place: CwdPla
         Some(r) if rng.chance(2, 3) => r,
         _ => analysed.to_string(),
     };
-    // a trailing separator is a common way to spell a directory
-    if rng.chance(1, 5) {
-        spelled.push('/');
+    // a trailing separator is a common way to spell a directory; so are redundant components
+    match rng.below(10) {
+        0 | 1 => spelled.push('/'),
+        2 => spelled = format!("{}/.", spelled),
+        3 => {
+            let base = crate::world::base_name(analysed).to_string();
+            spelled = format!("{}/../{}", spelled, base);
+        }
+        _ => {}
     }
     spelled
 }
